@@ -113,7 +113,7 @@ func RunC01(r *core.Run) {
 		"no call is made after a definitive verdict"}
 	P := ParserByName("ParseSIPMsg")
 	op := view.MsgOpt{}
-	nMsg := r.Pick(30000, 1500000)
+	nMsg := r.Pick(150000, 3000000)
 	r.Stage("gmsg", nMsg, func(w *core.Worker, idx int64) {
 		rr := core.NewRand(r.Seed, 0xC01, 1, uint64(idx))
 		o := gen.MsgOpts{MinHdrs: 1, MaxHdrs: 12, MultiNA: 40, MaxBody: 30}
@@ -131,7 +131,7 @@ func RunC01(r *core.Run) {
 		resumeSchedules(w, rr, c, op, 600)
 	})
 	corpus := loadCorpus()
-	nMut := r.Pick(15000, 600000)
+	nMut := r.Pick(80000, 1500000)
 	r.Stage("gmut", nMut, func(w *core.Worker, idx int64) {
 		rr := core.NewRand(r.Seed, 0xC01, 2, uint64(idx))
 		src := corpus[rr.Intn(len(corpus))]
@@ -145,7 +145,7 @@ func RunC01(r *core.Run) {
 		}
 		resumeSchedules(w, rr, c, op, 700)
 	})
-	nBytes := r.Pick(20000, 500000)
+	nBytes := r.Pick(100000, 1500000)
 	r.Stage("gbytes", nBytes, func(w *core.Worker, idx int64) {
 		rr := core.NewRand(r.Seed, 0xC01, 3, uint64(idx))
 		b := gen.Bytes(rr, 200)
